@@ -68,7 +68,10 @@ unsigned int get_rex_prefix(struct instr *all_instr, struct operand *m,
   unsigned int rm = m->reg;
   // preprocess vex paremeters
   all_instr->hex.is_w0 = true;
-  if ((m->reg & MODE_MASK) < reg64)
+  // the operand size of a memory operand is given by the register operand,
+  // not by the width of its base register
+  unsigned int size_reg = all_instr->mem_disp ? r->reg : m->reg;
+  if ((size_reg & MODE_MASK) < reg64)
     all_instr->hex.is_w0 = false;
   if ((m->reg & MODE_MASK) == mmx64 || (r->reg & MODE_MASK) == mmx64)
     return get_vector_rex_prefix(all_instr, m->reg, r->reg);
